@@ -102,9 +102,95 @@ def judge_threads(case):
     return []
 
 
+
+# FAILURE PATHS: a rendering that dies half-way (a content item whose __str__ raises) changes nothing: the same indenter
+# object, the same list / dict objects (repaired in place) and the same text block afterwards render exactly like fresh,
+# equal ones.
+
+class _Boom(Exception):
+    pass
+
+
+class _BaseBoom(BaseException):
+    pass
+
+
+class _Poison:
+    def __init__(self, exc):
+        self.exc = exc
+
+    def __str__(self):
+        raise self.exc('poisoned item')
+
+
+REFUSED_SHAPES = {
+    'first': lambda p: [p, 'b', '', 'c'], 'middle': lambda p: ['a', p, 'b'], 'last': lambda p: ['a', '', p],
+    'nested': lambda p: ['a', ['b', [p]], 'c'], 'dict': lambda p: {'k': 'a', 'l': p, 'm': 'b'}, 'alone': lambda p: [p],
+}
+
+
+def _repair(obj):
+    if isinstance(obj, list):
+        for i, x in enumerate(obj):
+            if isinstance(x, _Poison):
+                obj[i] = 'fixed'
+            else:
+                _repair(x)
+    elif isinstance(obj, dict):
+        for k, x in list(obj.items()):
+            if isinstance(x, _Poison):
+                obj[k] = 'fixed'
+            else:
+                _repair(x)
+
+
+def judge_refused(case):
+    import copy  # pylint: disable=import-outside-toplevel
+    from dznpy.text_gen import TextBlock  # pylint: disable=import-outside-toplevel
+    out = []
+    cfg = case['cfg']
+    exc = {'Exception': _Boom, 'BaseException': _BaseBoom}[case['exc']]
+    try:
+        ind = mk_indentizer(cfg)
+        content = REFUSED_SHAPES[case['shape']](_Poison(exc))
+        for via in case['via']:
+            try:
+                if via == 'to_list':
+                    ind.to_list(content)
+                elif via == 'to_str':
+                    ind.to_str(content)
+                else:
+                    TextBlock(['x']).append(content)
+            except (Exception, _BaseBoom):  # pylint: disable=broad-except
+                pass
+        _repair(content)
+        twin = copy.deepcopy(content)
+        fresh = mk_indentizer(cfg)
+        got, ref = ind.to_list(content), fresh.to_list(twin)
+        if got != ref:
+            out.append(('rendering-after-a-failed-one', f'{case}: same indenter and same (repaired) content objects: {got!r}; '
+                                                        f'fresh equal ones: {ref!r}'))
+        if ind.to_str(content) != fresh.to_str(twin):
+            out.append(('rendering-after-a-failed-one:to_str', f'{case}'))
+        got2, ref2 = fresh.to_list(content), fresh.to_list(twin)
+        if got2 != ref2:
+            out.append(('rendering-after-a-failed-one:other-indenter', f'{case}: {got2!r} vs {ref2!r}'))
+        blk, blk2 = TextBlock(content), TextBlock(twin)
+        if blk.indent(ind).lines != blk2.indent(fresh).lines:
+            out.append(('rendering-after-a-failed-one:textblock', f'{case}'))
+        # ... and unrelated content rendered with the indenter that saw the failure
+        if ind.to_list(['u', '', 'v']) != fresh.to_list(['u', '', 'v']):
+            out.append(('rendering-after-a-failed-one:unrelated-content', f'{case}'))
+    except (Exception, _BaseBoom) as err:  # pylint: disable=broad-except
+        out.append((f'rendering-after-a-failed-one:exception:{type(err).__name__}', f'{case}: {err!r}'))
+    return out
+
+
 def judge(case):
     if case.get('threads'):
         return judge_threads(case)
+    if case.get('refused'):
+        return judge_refused(case)
     from dznpy.text_gen import TextBlock  # pylint: disable=import-outside-toplevel
     lines, cfg = case['lines'], case['cfg']
     out = []
@@ -289,6 +375,20 @@ def work(slot):
                                    f'({loc[0].split("/")[-1]}:{loc[1]}), thread B to_str({lb!r}) in between: A={res_a!r} (alone {ref_a!r}) '
                                    f'B={res_b!r} (alone {ref_b!r}) | cfg={cfg!r}',
                                    {'threads': True, 'cfg': cfg, 'la': la, 'lb': lb, 'index': i})
+    # FAILURE PATHS
+    for ci, cfg in enumerate(long_cfgs + [c for c in cfgs if 'preset' in c]):
+        if ci % nslots != idx:
+            continue
+        for shape in REFUSED_SHAPES:
+            for exc in ('Exception', 'BaseException'):
+                for via in (['to_list'], ['to_str'], ['append'], ['to_list', 'to_list'], ['to_str', 'append', 'to_list']):
+                    case = {'refused': True, 'cfg': cfg, 'shape': shape, 'exc': exc, 'via': via}
+                    part.evaluations += 1
+                    part.transitions += len(via) + 1
+                    part.nontrivial += 1
+                    part.outcome('rendering-after-a-failed-one')
+                    for key, what in judge_refused(case):
+                        part.violation(key, what, case)
     part.states = part.evaluations
     return part
 
